@@ -32,6 +32,7 @@ type Job struct {
 	StopAtFirst bool
 	ValidatePaths int // number of completed paths to hand to native validation
 	Note string
+	Budget time.Duration // wall-clock budget of the job; exceeding it makes the run inconclusive (never a pass)
 	Stubs map[string]string // callee (as printed by go/ssa) -> "pkgpath.Func" of the harness stub that replaces it
 	RandomModels int // random assignments tried before a feasibility query goes to the solver (sat side only)
 	Cross string // back end used for cross-checking (default z3 4.8.12 for z3-new primaries)
@@ -174,6 +175,8 @@ type Engine struct {
 	numStr    map[string]*Term
 	randDraws [][]*Term
 	symIPs    map[string]Value
+	deadline  time.Time
+	overBudget bool
 }
 
 func NewEngine(p *Program, job *Job, stats *SolverStats, known map[string]map[string]bool, seed int64) (*Engine, error) {
@@ -233,8 +236,17 @@ func (e *Engine) Run() *JobResult {
 	}
 	e.res.Expected = e.P.assertLabels(fn)
 	e.prefix = nil
+	if e.job.Budget == 0 {
+		e.job.Budget = 20 * time.Minute
+	}
+	e.deadline = t0.Add(e.job.Budget)
 	for {
 		cont := e.runPath(fn)
+		if e.overBudget {
+			e.res.Truncated = true
+			e.res.Inconclusive = append(e.res.Inconclusive, fmt.Sprintf("job time budget of %s exceeded", e.job.Budget))
+			break
+		}
 		if !cont {
 			break
 		}
@@ -425,6 +437,7 @@ func (e *Engine) feasible(c *Term) bool {
 	if v, ok := e.syntactic(c); ok {
 		return v
 	}
+	e.checkBudget()
 	if e.concreteMode() {
 		panic("feasible() on symbolic term in concrete mode: " + c.String())
 	}
@@ -904,12 +917,16 @@ func (e *Engine) knownFor(label string) ([]string, map[string]*Term) {
 		if !labels[label] {
 			continue
 		}
-		ids = append(ids, id)
 		if c, ok := e.knownConds[id]; ok {
 			conds[id] = c
-		} else {
+		} else if labels["\x00always"] {
+			// event-only finding declared `always=true` in known_findings.txt
 			conds[id] = e.st.True
+		} else {
+			// a finding whose predicate the harness did not state on this path does not apply here
+			continue
 		}
+		ids = append(ids, id)
 	}
 	sort.Strings(ids)
 	return ids, conds
@@ -979,4 +996,11 @@ func (e *Engine) sampleModel(c *Term, n int) map[string]uint64 {
 		}
 	}
 	return nil
+}
+
+func (e *Engine) checkBudget() {
+	if !e.deadline.IsZero() && time.Now().After(e.deadline) {
+		e.overBudget = true
+		panic(&abortSignal{kind: abortViolation, msg: "budget"})
+	}
 }
